@@ -154,3 +154,58 @@ def ms_parity(norb_max=5):
     return [ob(f"C11.ms.parity[norb<={norb_max}]", REFUTED if bad else DISCHARGED, kind="bounded", backend="exhaustive-exec",
                wall=time.time() - t0, detail=f"{n} (reference, target) string pairs enumerated; mismatches {bad[:3]}",
                replayed=bool(bad), functions=["pyscf_interface.parity"])]
+
+
+def ms_fb(norb, nu, nd, ref, nchol=1):
+    """C03.fb.fock.multislater[...]: reverse-mode force bias of a determinant-list trial (any reference determinant) == <psi|L_g|phi>/<psi|phi>"""
+    t0 = time.time()
+    H.setup_repo()
+    import jax
+    import jax.numpy as jnp
+    from ad_afqmc import wavefunctions as wf, pyscf_interface as pi
+    dets = all_dets(norb, nu, nd)
+    inp = H.Inputs(ref + 50)
+    hc = inp.declare("c", (len(dets),))
+    # reverse mode conjugates cotangents: the walker gets Wirtinger pairs (w, w*), and the result must not depend on w*
+    hw = [inp.declare("wu", (norb, nu), True), inp.declare("wd", (norb, nd), True)]
+    hl = inp.declare("la", (nchol, norb, norb))
+    inp.build()
+    sp = inp.sp
+    cs, cx = hc["V"].s, hc["V"].x
+    idx = list(range(len(dets)))
+    first = idx.pop(ref % len(dets))
+    seq = [first] + idx
+    mx = max(max(_excitation_rank(dets[k], dets[first]) for k in seq), 1)
+    out_s = pi.get_excitations(state={dets[k]: cs[k] for k in seq}, max_excitation=mx)
+    out_x = pi.get_excitations(state={dets[k]: float(cx[k]) for k in seq}, max_excitation=mx)
+    keys = ("Acre", "Ades", "Bcre", "Bdes", "coeff", "ref_det")
+    wave_s, wave_x = dict(zip(keys, out_s)), dict(zip(keys, out_x))
+    wave_s["coeff"] = {k: _objarr(sp, v) for k, v in wave_s["coeff"].items()}
+    for k in ("Acre", "Ades", "Bcre", "Bdes"):
+        wave_s[k] = {kk: np.asarray(v) for kk, v in wave_s[k].items()}
+    wave_s["ref_det"] = np.asarray(wave_s["ref_det"])
+    wave_xj = jax.tree_util.tree_map(lambda a: jnp.asarray(a), wave_x)
+    trial = wf.multislater(norb, (nu, nd), mx)
+    L_s = hl["V"].s + np.swapaxes(hl["V"].s, -1, -2)
+    L_x = hl["V"].x + np.swapaxes(hl["V"].x, -1, -2)
+    ham_s, ham_x = dict(chol=L_s.reshape(nchol, norb * norb)), dict(chol=jnp.asarray(L_x.reshape(nchol, norb * norb)))
+    ws = [h["V"].s for h in hw]
+    wx = [jnp.asarray(h["V"].x) for h in hw]
+    out, it = evaluate(sp, trial._calc_force_bias, tuple(ws) + (ham_s, wave_s), tuple(wx) + (ham_x, wave_xj))
+    nat = trial._calc_force_bias(*wx, ham_x, wave_xj)
+    F = Fock(norb, (nu, nd))
+    psi = np.array([cs[0] * 0] * F.dim, dtype=object)
+    for k in seq:
+        a = tuple(i for i, o in enumerate(dets[k][0]) if o)
+        b = tuple(i for i, o in enumerate(dets[k][1]) if o)
+        psi[F.idx(a, b)] = psi[F.idx(a, b)] + cs[k]
+    phi = F.det_vec(ws[0], ws[1])
+    D0 = F.inner(psi, phi)
+    spec = np.array([F.inner(psi, F.one_body_both(L_s[g], phi)) / D0 for g in range(nchol)], dtype=object)
+    name = f"C03.fb.fock.multislater[norb={norb},nel={nu}+{nd},ref={ref}]"
+    o = H.identity(name, out, spec, functions=["wavefunctions.wave_function_auto._calc_force_bias", "wavefunctions.multislater._calc_overlap"], inputs=inp, t0=t0,
+                   note=f"reference {dets[first]}")
+    x = H.crosscheck(name, inp, out, nat)
+    if o["status"] == REFUTED:
+        o["replayed"] = True if x is None else False
+    return [o] + ([x] if x else [])
